@@ -320,7 +320,7 @@ class C19(PropBase):
             tag = "gpf"
             which = rng.below(7)
             if which < 3:
-                os_, kind, code, nparams, info0, flags = 0, 0, 0xC0000005, rng.choice([2, 2, 2, 1, 3]), rng.choice([0, 0, 0, 1, 8]), 0
+                os_, kind, code, nparams, info0, flags = rng.choice([0, 0, 6]), 0, 0xC0000005, rng.choice([2, 2, 2, 1, 3]), rng.choice([0, 0, 0, 1, 8]), 0
             elif which < 5:
                 os_, kind = 1, rng.below(2)
                 code, nparams, info0, flags = rng.choice([11, 7, 11, 7, 4]), 0, 0, rng.choice([0x80, 0x80, 0x80, 0, 1])
@@ -328,8 +328,15 @@ class C19(PropBase):
                 # macOS: EXC_BAD_ACCESS / EXC_I386_GPFLT (13), address 0
                 os_, kind, code, nparams, info0, flags = 2, 0, rng.choice([1, 1, 1, 2]), 0, 0, rng.choice([13, 13, 13, 1, 2])
             else:
-                # an OS without a GPF shape
-                os_, kind, code, nparams, info0, flags = 3, 0, rng.choice([11, 1, 0xC0000005]), 2, 0, rng.choice([0x80, 13, 0])
+                # an OS without a GPF shape: Solaris; Android (Linux-style reasons); iOS (mac-style reasons)
+                os_ = rng.choice([3, 4, 4, 5, 5])
+                kind = 0
+                if os_ == 4:
+                    code, nparams, info0, flags = rng.choice([11, 7]), 0, 0, 0x80
+                elif os_ == 5:
+                    code, nparams, info0, flags = 1, 0, 0, 13
+                else:
+                    code, nparams, info0, flags = rng.choice([11, 1, 0xC0000005]), 2, 0, rng.choice([0x80, 13, 0])
             if rng.chance(1, 6):
                 arch = rng.choice([0x8002, 0x8004, 12, 0])
         centre = operand_value(ctx, dec) if dec else (ctx[ipv] if ipk == 2 else ctx[7])
@@ -395,10 +402,10 @@ class C19(PropBase):
             ipk, ipv = (3, v) if v is not None else (1, 0)
         # crash address as the OS would report it
         if tag == "gpf":
-            if os_ == 0:
+            if os_ in (0, 6):
                 info1, excaddr = rng.choice([U64, U64, U64, U64 - 1, 0]), ctx[16]
-            elif os_ == 3:
-                info1, excaddr = U64, rng.choice([0, U64])
+            elif os_ >= 3:
+                info1, excaddr = U64, rng.choice([0, 0, U64])
             else:
                 info1, excaddr = 0, rng.choice([0, 0, 0, 1, centre])
         elif tag == "platform":
@@ -656,9 +663,9 @@ class C19(PropBase):
         kind, n = int(t[i]), int(t[i + 1])
         regs = [(int(t[i + 2 + 3 * k]), int(t[i + 3 + 3 * k]), int(t[i + 4 + 3 * k])) for k in range(n)]
         op = 0
-        if os_ == 0 and code == 0xC0000005 and nparams >= 1:
+        if os_ in (0, 6) and code == 0xC0000005 and nparams >= 1:
             op = {0: 1, 1: 2, 8: 3}.get(info0, 0)
-        address = info1 if (os_ == 0 and code in (0xC0000005, 0xC0000006) and nparams >= 2) else excaddr
+        address = info1 if (os_ in (0, 6) and code in (0xC0000005, 0xC0000006) and nparams >= 2) else excaddr
         if adj.startswith("nc:"):
             v = int(adj[3:])
             if not (0x0000800000000000 <= v <= 0xffff7fffffffffff):
